@@ -154,3 +154,14 @@ Fixpoint session_alive (a c : N) (started : bool) (ops : list op) : bool :=
       | _ => session_alive a c (started || mentions c o) r
       end
   end.
+
+(* Table::collect_loc_rib_paths_limited(max_paths) read per prefix *)
+Definition locrib_view_limited (t : table) (m : N) (net : N) : list entry :=
+  match find (fun c => c_net c =? net) (loc_rib t (Some m)) with
+  | Some c => c_paths c
+  | None => []
+  end.
+
+(* all paths of a prefix, eligible or not *)
+Definition entries_of (t : table) (net : N) : list entry :=
+  match alookup net (t_dests t) with Some d => d_entries d | None => [] end.
